@@ -46,7 +46,9 @@ impl Sandbox {
             std::fs::create_dir_all(p.join("sibling")).unwrap();
             std::fs::write(p.join("sibling").join("n"), format!("sibling-{}", d)).unwrap();
         }
-        let dest = p.join("dest");
+        // two otherwise empty directories between the last populated level and the destination: a writer
+        // that "tidies up" empty folders too far up removes them (and they are in the snapshot)
+        let dest = p.join("e1").join("e2").join("dest");
         std::fs::create_dir_all(&dest).unwrap();
         Sandbox { root, dest }
     }
@@ -151,6 +153,14 @@ pub fn run_case(sb: &Sandbox, before: &BTreeMap<PathBuf, Option<Vec<u8>>>, c: &C
     });
     if let Err(p) = r {
         return Some((format!("C05/panic/{}", panic_sig(&p)), format!("panic with Content-Location {:?}: {}", loc, p)));
+    }
+    if !sb.dest.is_dir() {
+        // the destination directory itself is not "inside" the destination directory
+        let _ = std::fs::create_dir_all(&sb.dest);
+        return Some((
+            "C05/destination-directory-removed".into(),
+            format!("Content-Location {:?} ({}): the destination directory itself no longer exists after the session", loc, ["complete", "error", "interrupted"][c.outcome as usize]),
+        ));
     }
     let after = sb.snapshot();
     if &after != before {
